@@ -73,10 +73,11 @@ OUTSIDE = [
 TMAX = B(3, 4)     # events in the run (sequences 0..t-1, the last one is the StopEvent)
 MRA = B(2, 3)      # max_reconnect_attempts and number of faults
 CUT = 4000         # upper bound for a cut offset (a body is < 1000 characters here)
+T2 = B(2, 4)       # events when there are two or more faults
 NDI = B(1, 2)      # faults in ob_internal_filter
 NDL = B(1, 2)      # faults in ob_live_log
 GFREE = B(False, True)  # live log: independent gaps (thorough) or one gap value for all appends (quick)
-LMAX = 15          # live log: 3 frames x 3 lines + up to 2 heart-beat lines per gap
+LMAX = 21          # live log: 3 frames x 3 lines + up to 2 heart-beats (4 lines) per gap
 
 # ---- the real server handler, regenerated from the current source on every run
 _API = h_idle.lift_api_methods(["_resolve_event_stream", "_stream_events"])
@@ -266,19 +267,19 @@ def _run(t: int, c0: int, incl: bool, ipos: int, mra: int, faults: List[int], li
 # a line without its newline is never delivered (ob_cut_at_any_character checks that reduction on a symbolic offset).
 
 @obligation(quick=200, thorough=600,
-            partitions_quick=[f"nd == {n} and t == {t}" for n in range(0, 2) for t in range(1, 4)]
-            + ["nd == 2 and t == 1", "nd == 2 and t == 2", "nd == 2 and t == 3 and c0 <= 0", "nd == 2 and t == 3 and c0 >= 1"],
-            partitions_thorough=[f"nd == {n} and t == {t}" for n in range(0, 3) for t in range(1, 5)]
-            + [f"nd == 3 and t == {t} and d1 == {k}" for t in range(1, 5) for k in range(-1, 3 * t + 1)],
+            partitions_quick=["nd == 0", "nd == 1 and t <= 2", "nd == 1 and t == 3", "nd == 2 and t == 1", "nd == 2 and t == 2"],
+            partitions_thorough=["nd == 0", "nd == 1"] + [f"nd == 2 and t == {t}" for t in range(1, 5)]
+            + [f"nd == 3 and t == {t} and c0 == {c}" for t in range(1, 5) for c in range(-1, t)],
             what="completed run, cursor anywhere: every later event exactly once, in order, last_sequence == yielded "
                  "sequence, for every placement of <= max_reconnect_attempts faults (connect error, or drop after any line)",
             bounds={"events t": "1..TMAX", "cursor c0": "-1..t-1", "max_reconnect_attempts": "0..MRA", "faults nd": "0..mra",
-                    "fault": "-1 = connect error, else lines delivered before the drop 0..3t"})
+                    "fault": "-1 = connect error, else lines delivered before the drop 0..3*(events after the cursor)",
+                    "two or more faults": "t <= T2 (2 quick / 4 thorough)"})
 def ob_static_log(t: int, c0: int, mra: int, nd: int, d1: int, d2: int, d3: int) -> bool:
     """
     pre: 1 <= t <= TMAX and -1 <= c0 <= t - 1
-    pre: 0 <= nd <= mra <= MRA
-    pre: -1 <= d1 <= 3 * t and -1 <= d2 <= 3 * t and -1 <= d3 <= 3 * t
+    pre: 0 <= nd <= mra <= MRA and (nd <= 1 or t <= T2)
+    pre: -1 <= d1 <= 3 * (t - 1 - c0) and -1 <= d2 <= 3 * (t - 1 - c0) and -1 <= d3 <= 3 * (t - 1 - c0)
     pre: (nd >= 1 or d1 == -1) and (nd >= 2 or d2 == -1) and (nd >= 3 or d3 == -1)
     post: _
     """
@@ -289,7 +290,7 @@ def ob_static_log(t: int, c0: int, mra: int, nd: int, d1: int, d2: int, d3: int)
 
 
 @obligation(quick=120, thorough=300,
-            partitions_quick=["c0 == -1", "c0 == 0"], partitions_thorough=[f"c0 == {c}" for c in range(-1, 3)],
+            partitions_thorough=[f"c0 == {c}" for c in range(-1, 3)],
             what="the fault given as a CHARACTER offset into the response body (symbolic): same guarantee — ties the "
                  "line-count fault model to 'any point within and between frames'",
             bounds={"events": "2 quick / 3 thorough", "faults": 1, "cut offset": "0..CUT characters"})
@@ -303,7 +304,7 @@ def ob_cut_at_any_character(c0: int, cut: int) -> bool:
 
 
 @obligation(quick=200, thorough=600,
-            partitions_quick=[f"nd == {n} and incl == {b}" for n in range(0, 2) for b in (False, True)],
+            partitions_quick=["nd == 0", "nd == 1 and incl", "nd == 1 and not incl"],
             partitions_thorough=[f"nd == {n} and incl == {b} and ipos == {p}" for n in range(0, 3) for b in (False, True) for p in (0, 1, 2)],
             what="an internal dispatch event in the log: with include_internal_events=False it is skipped by the server "
                  "(sequence gap), the rest is still delivered exactly once in order across faults",
@@ -312,7 +313,7 @@ def ob_internal_filter(incl: bool, ipos: int, c0: int, nd: int, d1: int, d2: int
     """
     pre: 0 <= ipos <= TMAX - 2 and -1 <= c0 <= TMAX - 1
     pre: 0 <= nd <= NDI
-    pre: -1 <= d1 <= 3 * TMAX and -1 <= d2 <= 3 * TMAX
+    pre: -1 <= d1 <= 3 * (TMAX - 1 - c0) and -1 <= d2 <= 3 * (TMAX - 1 - c0)
     pre: (nd >= 1 or d1 == -1) and (nd >= 2 or d2 == -1)
     post: _
     """
@@ -323,7 +324,7 @@ def ob_internal_filter(incl: bool, ipos: int, c0: int, nd: int, d1: int, d2: int
 
 
 @obligation(quick=200, thorough=600,
-            partitions_quick=[f"live_from == {k} and g1 == {g}" for k in range(0, 3) for g in (0, 2)],
+            partitions_quick=["g1 == 0"] + [f"live_from == {k} and g1 == 2" for k in range(0, 3)],
             partitions_thorough=[f"nd == {n} and live_from == {k} and g1 == {g}" for n in range(0, 3) for k in range(0, 3) for g in (0, 2)],
             what="live run: events keep being appended (gaps shorter or longer than the heart-beat interval) while the "
                  "client streams and reconnects; heart-beat comment lines are ignored",
@@ -336,7 +337,7 @@ def ob_live_log(c0: int, live_from: int, g1: int, g2: int, g3: int, nd: int, d1:
     pre: (live_from < 1 or g3 == 0) and (live_from < 2 or g2 == 0)
     pre: GFREE or (g2 == 0 or g2 == g1) and (g3 == 0 or g3 == g1)
     pre: 0 <= nd <= NDL
-    pre: -1 <= d1 <= LMAX and -1 <= d2 <= LMAX
+    pre: -1 <= d1 <= 3 * (2 - c0) + 2 * g1 * (3 - live_from) and -1 <= d2 <= 3 * (2 - c0) + 2 * g1 * (3 - live_from)
     pre: (nd >= 1 or d1 == -1) and (nd >= 2 or d2 == -1)
     post: _
     """
